@@ -46,7 +46,8 @@ PlacementClauses ==
   IF ~Nested
   THEN Fail(Len(c.out) = T, c.pid \o ".number_of_results")
     \o Fail(Len(c.out) = T => \A k \in 1 .. T : c.out[k] = Expected[k], c.pid \o ".table_at_wrong_position_or_with_wrong_options")
-  ELSE Fail(Len(c.out) = c.n0 /\ \A i \in 1 .. Len(c.out) : Len(c.out[i]) = c.n1, c.pid \o ".shape_of_nested_result")
+  ELSE Fail("nested_list" \notin DOMAIN c \/ c.nested_list, c.pid \o ".result_is_not_a_nested_list")
+    \o Fail(Len(c.out) = c.n0 /\ \A i \in 1 .. Len(c.out) : Len(c.out[i]) = c.n1, c.pid \o ".shape_of_nested_result")
     \o Fail((Len(c.out) = c.n0 /\ \A i \in 1 .. Len(c.out) : Len(c.out[i]) = c.n1) =>
                \A i \in 1 .. c.n0, j \in 1 .. c.n1 : c.out[i][j] = Expected[i][j], c.pid \o ".table_at_wrong_position_or_with_wrong_options")
 \* the clauses about the group object apply to 2-D and 3-D runs alike
